@@ -454,7 +454,7 @@ func envInitStoreFns(c *report.Ctx) []*ssa.Function {
 				continue
 			}
 			for _, v := range variadicValues(call.Common().Args[0]) {
-				if _, isP := v.(*ssa.Parameter); isP {
+				if _, _, isP := an.ParamRead(v); isP {
 					found = true
 				}
 			}
